@@ -23,6 +23,7 @@ VERIFY = ['*::CertificateVerifier::verify_certificate']
 STORE = [AG + 'database::repository::certificate_repository::CertificateRepository::create_certificate']
 UPD = [AG + 'database::repository::open_message_repository::OpenMessageRepository::update_open_message']
 CMS = ['*::MultiSigner::create_multi_signature']
+OMR = ['*::OpenMessageRepository::get_open_message_with_single_signatures']
 SM = AG + 'runtime::state_machine::AggregatorRuntime::'
 
 
@@ -46,8 +47,8 @@ def run(ctx):
     if f is not None:
         lf = f.logic()
         body = lf.body
-        ctx.flag_gate('a', f, 'pty:OpenMessage.is_certified', ret_filter=ret_ok_some, desc='[Ok(Some)]')
-        ctx.flag_gate('a', f, 'pty:OpenMessage.is_expired', ret_filter=ret_ok_some, desc='[Ok(Some)]')
+        ctx.flag_gate('a', f, 'pty:OpenMessage*.is_certified', ret_filter=ret_ok_some, desc='[Ok(Some)]')
+        ctx.flag_gate('a', f, 'pty:OpenMessage*.is_expired', ret_filter=ret_ok_some, desc='[Ok(Some)]')
         ctx.r1('a', CC, Sink('create_multi_signature', CMS, 'ok'), ret_filter=ret_ok_some, label='Ok(Some)')
         ctx.r1('a', CC, Sink('CertificateVerifier::verify_certificate', VERIFY, 'ok'), ret_filter=ret_ok_some, label='Ok(Some)')
         ctx.r1('a', CC, Sink('CertificateRepository::create_certificate', STORE, 'ok'), ret_filter=ret_ok_some, label='Ok(Some)')
@@ -95,7 +96,7 @@ def run(ctx):
         # the open message marked certified is the one loaded for this entity
         for c in ctx.call_sites(body, UPD):
             og = fn_origins(lf, c.args[1], True)
-            if has(og, 'call:*get_open_message_record*'):
+            if ctx.via_sink(og, OMR):
                 R.ok('a', 'R5', 'create_certificate: the open message marked certified is the one loaded for the entity', '', f.loc())
             else:
                 R.violation('a', 'R5', 'create_certificate: the open message marked certified is the one loaded for the entity', 'create_certificate:open-message',
@@ -106,9 +107,9 @@ def run(ctx):
             og = [fn_origins(lf, a, True) for a in c.args]
             checks = [
                 ('previous_hash <- get_master_certificate_for_epoch(open_message.epoch).hash', has(og[0], 'call:*CertificateRepository::get_master_certificate_for_epoch') ),
-                ('epoch <- open_message.epoch', has(fn_origins(lf, c.args[1], 'adapters'), 'pty:OpenMessage.epoch') or has(og[1], 'call:*get_open_message_record*')),
+                ('epoch <- open_message.epoch', has(fn_origins(lf, c.args[1], 'adapters'), 'pty:OpenMessage.epoch') or ctx.via_sink(og[1], OMR)),
                 ('protocol_message <- open_message.protocol_message', has(fn_origins(lf, c.args[3], 'adapters'), 'pty:OpenMessage.protocol_message') or
-                 (has(og[3], 'call:*get_open_message_record*') and not has(og[3], 'call:*EpochService*'))),
+                 (ctx.via_sink(og[3], OMR) and not has(og[3], 'call:*EpochService*'))),
                 ('aggregate_verification_key <- epoch_service.current_aggregate_verification_key()', has(og[4], 'call:*EpochService::current_aggregate_verification_key')),
                 ('signature <- (signed_entity_type, create_multi_signature result)', has(og[5], 'call:' + CMS[0]) and has(og[5], 'p#2')),
                 ('metadata: parameters <- epoch_service.current_protocol_parameters(), signers <- current_signers_with_stake filtered by open message signer ids',
@@ -122,7 +123,7 @@ def run(ctx):
                     R.violation('b', 'R5', 'create_certificate: ' + d, 'create_certificate:field:' + d.split(' ', 1)[0].rstrip(':'), 'provenance not established', f.loc())
         for c in ctx.call_sites(body, ['*CertificateRepository::get_master_certificate_for_epoch']):
             og = fn_origins(lf, c.args[1], True)
-            if has(og, 'call:*get_open_message_record*'):
+            if ctx.via_sink(og, OMR):
                 R.ok('b', 'R5', 'create_certificate: master certificate looked up for the open message\'s epoch', '', f.loc())
             else:
                 R.violation('b', 'R5', 'create_certificate: master certificate looked up for the open message\'s epoch', 'create_certificate:master-epoch', str(sorted(og)[:4]), f.loc())
@@ -181,6 +182,13 @@ def run(ctx):
         rem2 = set()
         for c in isn:
             rem2 |= track_result(body, c.dest[0], -1).success_edges
+        # ... or tested by matching on the Option itself (`match last_genesis_epoch { None => .., Some(e) if .. }`)
+        for l in range(1, body.argc + 1):
+            if body.lty(l).lstrip('&').startswith('std::option::Option<') and 'Epoch' in body.lty(l):
+                tr_ = track_result(body, l, +1, 'option')
+                rem2 |= tr_.success_edges
+                if tr_.success_edges:
+                    isn = isn or [True]
         r1 = body.reach([0], removed=rem)
         r2 = body.reach([0], removed=rem2)
         if eq and isn and not [b for b in ready_blocks if b in r2]:
